@@ -99,7 +99,7 @@ REGISTRY = {
     "C05": dict(
         packs=["store", "mem"], level="proof",
         replay=dict(script="replay/mem.py", args=["C05"], timeout=600),
-        bounded=[dict(name="crash-state-recovery", script="replay/mem.py", args=["C05"],
+        bounded=[dict(name="audit-scenarios", script="replay/found.py", args=["C05", "{tier}"], timeout=1500, bound="scenarios contributed by audit sub-agents (replay/found/MANIFEST.json): repaired defects must stay repaired, recorded findings are probed"), dict(name="crash-state-recovery", script="replay/mem.py", args=["C05"],
                       bound="fresh-process call from every crash state of one entry: missing/torn metadata, missing/torn output, empty entry dir, leftover temporary, "
                             "removed function dir, func_code.py truncated at EVERY length; with and without expires_after")],
         trusted=["POSIX model of contracts/store.py: atomic rename, a crash leaves a prefix of the issued effects, no reordering by the disk (fsync out of scope)",
@@ -111,7 +111,7 @@ REGISTRY = {
     "C11": dict(
         packs=["store", "mem", "c18"], level="proof",
         replay=dict(script="replay/c11.py", args=["{seed}", "3", "3", "200"], timeout=900),
-        bounded=[dict(name="threads-and-processes-stress", script="replay/c11.py", args=["{seed}", "3", "3", "200"],
+        bounded=[dict(name="audit-scenarios", script="replay/found.py", args=["C11", "{tier}"], timeout=1500, bound="scenarios contributed by audit sub-agents (replay/found/MANIFEST.json): repaired defects must stay repaired, recorded findings are probed"), dict(name="threads-and-processes-stress", script="replay/c11.py", args=["{seed}", "3", "3", "200"],
                       bound="3 threads + 3 processes x 200 operations on one cache directory (calls with 7 argument values, 8% reduce_size, 3% clear); "
                             "all values checked, every output.pkl left behind loaded")],
         trusted=["interference model: between two file-system primitives of one user the whole file system may change arbitrarily except that this user's own temporaries "
@@ -125,7 +125,7 @@ REGISTRY = {
     "C02": dict(
         packs=["mem", "c07"], level="proof",
         replay=dict(script="replay/mem.py", args=["C02"], timeout=600),
-        bounded=[dict(name="memory-scenarios", script="replay/mem.py", args=["C02"],
+        bounded=[dict(name="audit-scenarios", script="replay/found.py", args=["C02", "{tier}"], timeout=1500, bound="scenarios contributed by audit sub-agents (replay/found/MANIFEST.json): repaired defects must stay repaired, recorded findings are probed"), dict(name="memory-scenarios", script="replay/mem.py", args=["C02"],
                       bound="call-form equivalence / redefinition / crash-state scenarios on a real cache directory (every truncation length of func_code.py, "
                             "missing or torn metadata and output, leftover temporaries, with and without expires_after); extract_first_line on every prefix"), dict(name="filter_args-vs-interpreter", script="replay/c07.py", args=["4"],
                           bound="every signature with <= 4 parameters x every call shape (31441 calls, 3591 accepted by Python)")],
@@ -137,7 +137,7 @@ REGISTRY = {
     "C06": dict(
         packs=["mem", "c07", "c08"], level="proof",
         replay=dict(script="replay/mem.py", args=["C06"], timeout=600),
-        bounded=[dict(name="memory-scenarios", script="replay/mem.py", args=["C06"],
+        bounded=[dict(name="audit-scenarios", script="replay/found.py", args=["C06", "{tier}"], timeout=1500, bound="scenarios contributed by audit sub-agents (replay/found/MANIFEST.json): repaired defects must stay repaired, recorded findings are probed"), dict(name="memory-scenarios", script="replay/mem.py", args=["C06"],
                       bound="call-form equivalence / redefinition / crash-state scenarios on a real cache directory (every truncation length of func_code.py, "
                             "missing or torn metadata and output, leftover temporaries, with and without expires_after); extract_first_line on every prefix"), dict(name="filter_args-vs-interpreter", script="replay/c07.py", args=["4"],
                           bound="every signature with <= 4 parameters x every call shape: acceptance and equal canonical form of equivalent calls")],
@@ -148,7 +148,7 @@ REGISTRY = {
     "C12": dict(
         packs=["mem"], level="proof",
         replay=dict(script="replay/mem.py", args=["C12"], timeout=600),
-        bounded=[dict(name="memory-scenarios", script="replay/mem.py", args=["C12"],
+        bounded=[dict(name="audit-scenarios", script="replay/found.py", args=["C12", "{tier}"], timeout=1500, bound="scenarios contributed by audit sub-agents (replay/found/MANIFEST.json): repaired defects must stay repaired, recorded findings are probed"), dict(name="memory-scenarios", script="replay/mem.py", args=["C12"],
                       bound="call-form equivalence / redefinition / crash-state scenarios on a real cache directory (every truncation length of func_code.py, "
                             "missing or torn metadata and output, leftover temporaries, with and without expires_after); extract_first_line on every prefix")],
         trusted=["abstract store contracts", "get_func_code returns the current source text; hash()/id() of live function objects are stable"],
@@ -221,7 +221,7 @@ REGISTRY = {
         packs=["c18"],
         level="proof",
         replay=dict(script="replay/c18.py", args=["search", "3"], timeout=900),
-        bounded=[
+        bounded=[dict(name="audit-scenarios", script="replay/found.py", args=["C18", "{tier}"], timeout=1500, bound="scenarios contributed by audit sub-agents (replay/found/MANIFEST.json): repaired defects must stay repaired, recorded findings are probed"), 
             dict(name="memstr_to_bytes-exhaustive", script="replay/c18.py", args=["memstr", "3000"],
                  bound="integer literals 0..2999 and 3 large ones x {K,M,G}; 7 malformed; 3 fractional"),
             dict(name="lru-prefix-small-scope", script="replay/c18.py", args=["search", "2"],
